@@ -2809,6 +2809,78 @@ theorem replaceRange_delete_applies (S : Schema) (hdet : detB S = true) (hfill :
       exact hst
   exact deleteRange_applies S hdet hfill hleaf hcl hts hta hjc hro hiu doc f t hv hdoc hn hattrs hhc hft ht hpf hpt st hds
 
+/-! ### the trivial fit with content (typing, pasting closed content where it fits as it is) -/
+
+/-- **`trivialFit_replace_applies`** — `trivialFit_delete_applies` for every closed slice: when `fits_trivially` approves
+    (`from` and `to` have the same parent and `can_replace(index(from), index(to), slice.content)` holds), the step
+    `ReplaceStep(f, t, slice)` applies.  The slice's content in normal form; no hypothesis about its nodes (the replace
+    validates the level it changes, `can_replace` tested exactly that, up to the two text halves: `textAbsorbB`). -/
+theorem trivialFit_replace_applies (S : Schema) (hts : textStableC S = true) (hta : textAbsorbB S = true) (doc : Node)
+    (f t : Nat) (sl : Slice) (hv : C01.Valid S doc) (hdoc : C01.IsElem doc) (hn : fnorm doc.kids = true)
+    (hsn : fnorm sl.content = true) (hft : f ≤ t)
+    (hpf : pairAligned doc f = true) (hpt : pairAligned doc t = true)
+    (htr : fitsTriviallyO S doc f t sl = some true) :
+    ∃ doc', S.apply (.replace f t sl false) doc = .ok doc' := by
+  cases doc with
+  | text s m => simp [C01.IsElem, Node.isLeaf] at hdoc
+  | leaf ty a m => simp [C01.IsElem, Node.isLeaf] at hdoc
+  | elem ty0 a0 m0 K =>
+    unfold fitsTriviallyO at htr
+    split at htr
+    · rename_i rf rt hf ht
+      have hpf' : rf.pairOk = true := by simpa [pairAligned, hf] using hpf
+      have hpt' : rt.pairOk = true := by simpa [pairAligned, ht] using hpt
+      exact trivial_replace_applies S (textAbsorb_of_B S hta) (textStableP_of_C S hts) ty0 a0 m0 K f t rf rt sl hf ht hv hn
+        hsn hft hpf' hpt' htr
+    · simp at htr
+
+/-- **`replace_never_raises_flat`** — `Transform.replace(f, t, slice)` (and `insert`, `replace_with`, typing) when the
+    request fits trivially: `replace_step` answers `ReplaceStep(f, t, slice)` and that step applies -/
+theorem replace_never_raises_flat (S : Schema) (hts : textStableC S = true) (hta : textAbsorbB S = true) (doc : Node)
+    (f t : Nat) (sl : Slice) (hv : C01.Valid S doc) (hdoc : C01.IsElem doc) (hn : fnorm doc.kids = true)
+    (hsn : fnorm sl.content = true) (hft : f ≤ t)
+    (hpf : pairAligned doc f = true) (hpt : pairAligned doc t = true) (hne : ¬ (f = t ∧ sl.size = 0))
+    (htr : fitsTriviallyO S doc f t sl = some true) :
+    ∃ doc', replaceStep S doc f t sl = .ok (some (.replace f t sl false)) ∧
+      S.apply (.replace f t sl false) doc = .ok doc' := by
+  obtain ⟨doc', ha⟩ := trivialFit_replace_applies S hts hta doc f t sl hv hdoc hn hsn hft hpf hpt htr
+  exact ⟨doc', replaceStep_trivial S doc f t sl hne htr, ha⟩
+
+/-- **`insertInline_never_raises_flat`** — typing / inserting inline leaves where they fit as they are: the operation
+    returns a valid document, everything outside `[f, t)` kept, the text between an in-order subsequence of the typed
+    text -/
+theorem insertInline_never_raises_flat (S : Schema) (hdet : detB S = true) (hfill : S.fillersOKB = true)
+    (hwrap : S.wrapOKB = true) (hlab : S.labelsOKB = true) (hleaf : PM.FromDom.leafOkB S = true)
+    (hts : textStableC S = true) (hcl : S.closableB = true) (hta : textAbsorbB S = true) (doc : Node) (f t : Nat)
+    (sl : Slice) (hsl : sl.inlineLeaves S = true) (hslv : sl.closedValid S = true) (hsn : fnorm sl.content = true)
+    (hv : C01.Valid S doc) (hdoc : C01.IsElem doc) (hn : fnorm doc.kids = true) (hattrs : S.nodeAttrsOK doc = true)
+    (hft : f ≤ t) (hpf : pairAligned doc f = true) (hpt : pairAligned doc t = true)
+    (hne : ¬ (f = t ∧ sl.size = 0)) (htr : fitsTriviallyO S doc f t sl = some true) :
+    ∃ doc', replaceStep S doc f t sl = .ok (some (.replace f t sl false)) ∧
+      S.apply (.replace f t sl false) doc = .ok doc' ∧ C01.Valid S doc' ∧
+      Kept (ftoks doc.kids) (ftoks doc'.kids) f t (textUnits (sliceToks' sl)) := by
+  obtain ⟨doc', hst, ha⟩ := replace_never_raises_flat S hts hta doc f t sl hv hdoc hn hsn hft hpf hpt hne htr
+  refine ⟨doc', hst, ha, ?_⟩
+  exact insertInline_valid_partial S hdet hfill hwrap hlab hleaf hts hcl doc doc' f t sl hsl hslv hv hattrs hft _ hst
+    (by intro F T G1 G2 sl' ins b h; cases h) ha
+
+/-- the hypotheses of `trivialFit_replace_applies` are satisfiable: typing `"x"` into `doc(p("abcd"))` at position 3
+    (strictly inside the text child) fits trivially -/
+example :
+    let nt (name : String) (isText inl : Bool) (dfa : Array DfaState) : NodeType :=
+      { name := name, isText := isText, isInline := isText, isLeaf := isText, isAtom := isText,
+        inlineContent := inl, isolating := false, defining := false, code := false,
+        dfa := dfa, markSet := none, attrs := [] }
+    let S : Schema := { nodes := #[nt "doc" false false #[⟨false, [(1, 1)]⟩, ⟨true, [(1, 1)]⟩],
+                                   nt "paragraph" false true #[⟨true, [(2, 0)]⟩],
+                                   nt "text" true false #[⟨true, []⟩]],
+                        marks := #[], top := 0, textTy := 2 }
+    let doc := Node.elem 0 [] [] [.elem 1 [] [] [.text [97, 98, 99, 100] []]]
+    let sl : Slice := ⟨[.text [120] []], 0, 0⟩
+    textStableC S = true ∧ textAbsorbB S = true ∧ S.checkNode doc = true ∧ fnorm doc.kids = true ∧
+    fnorm sl.content = true ∧ pairAligned doc 3 = true ∧ fitsTriviallyO S doc 3 3 sl = some true := by
+  decide +kernel
+
 /-- the hypotheses of `delete_applies` are satisfiable on runs that reach the Fitter: `doc(p("ab"), p("cd"))` with
     `doc: "paragraph+"`, `paragraph: "text*"` — deleting `[2, 6)` (from inside the first paragraph to inside the second)
     is not a trivial fit and ends in the replace step that joins the paragraphs; in `doc(bq(p("ab")), p("cd"))` with
